@@ -180,11 +180,250 @@ Definition load_check (t : rawty) (alt : order) (pos byte : Z) : bool :=
   && (k =? if alt then pos * bits t else 8 - (pos + 1) * bits t)
   && (0 <=? k) && (k + bits t <=? 8).
 
-Definition all_byte_checks : bool :=
-  forallb (fun t => forallb (fun alt => forallb (fun pos => forallb (fun byte =>
-    load_check t alt pos byte && forallb (fun v => byte_check t alt pos byte v) (range 0 (2 ^ bits t)))
-    (range 0 256)) (range 0 (ppb t))) [false; true]) [U1; U2; U4].
+Definition cell_check (t : rawty) (alt : order) (pos byte : Z) : bool :=
+  load_check t alt pos byte && forallb (fun v => byte_check t alt pos byte v) (range 0 (2 ^ bits t)).
+Definition pos_check t alt pos := forallb (cell_check t alt pos) (range 0 256).
+Definition order_check t alt := forallb (pos_check t alt) (range 0 (ppb t)).
+Definition ty_check t := forallb (order_check t) [false; true].
 
-Lemma all_byte_checks_true : all_byte_checks = true.
+Lemma all_byte_checks_true : forallb ty_check [U1; U2; U4] = true.
 Proof. vm_compute. reflexivity. Qed.
 
+(* ---- unpacking the decided table ------------------------------------------------------------------ *)
+Lemma sub_byte_cases t : sub_byte t -> t = U1 \/ t = U2 \/ t = U4.
+Proof. auto. Qed.
+
+Lemma ppb_bits t : sub_byte t -> 0 < ppb t /\ ppb t * bits t = 8 /\ 0 < bits t.
+Proof. intros [->|[->| ->]]; cbv; repeat split; congruence. Qed.
+
+Lemma forallb_In {A} (f : A -> bool) l x : forallb f l = true -> In x l -> f x = true.
+Proof. intros H. rewrite forallb_forall in H. auto. Qed.
+
+Lemma byte_facts t alt pos byte v :
+  sub_byte t -> 0 <= pos < ppb t -> 0 <= byte < 256 -> raw_ok t v ->
+  load_check t alt pos byte = true /\ byte_check t alt pos byte v = true.
+Proof.
+  intros St Hp Hb Hv.
+  assert (I1 : In t [U1; U2; U4]) by (destruct St as [->|[->| ->]]; cbn [In]; tauto).
+  assert (I2 : In alt [false; true]) by (destruct alt; cbn [In]; tauto).
+  pose proof (forallb_In _ _ t all_byte_checks_true I1) as A.
+  pose proof (forallb_In _ _ alt A I2) as B.
+  pose proof (forallb_In _ _ pos B (proj2 (In_range _ _ _) Hp)) as C.
+  pose proof (forallb_In _ _ byte C (proj2 (In_range _ _ _) Hb)) as D.
+  unfold cell_check in D.
+  apply andb_true_iff in D. destruct D as [D1 D2]. split; [exact D1|].
+  exact (forallb_In _ _ v D2 (proj2 (In_range _ _ _) Hv)).
+Qed.
+
+Lemma sb_load t alt pos byte :
+  sub_byte t -> 0 <= pos < ppb t -> 0 <= byte < 256 ->
+  let k := bit_index t alt pos in
+  raw_new t (Z.shiftr byte k) = (byte / 2 ^ k) mod 2 ^ bits t /\
+  k = (if alt then pos * bits t else 8 - (pos + 1) * bits t) /\ 0 <= k /\ k + bits t <= 8.
+Proof.
+  intros St Hp Hb k.
+  assert (Hv : raw_ok t 0) by (unfold raw_ok; destruct t; cbv; split; congruence).
+  destruct (byte_facts t alt pos byte 0 St Hp Hb Hv) as [L _].
+  unfold load_check in L. fold k in L.
+  repeat (apply andb_true_iff in L; destruct L as [L ?]).
+  repeat split; lia.
+Qed.
+
+Lemma sb_store t alt pos byte v :
+  sub_byte t -> 0 <= pos < ppb t -> 0 <= byte < 256 -> raw_ok t v ->
+  let k := bit_index t alt pos in
+  let nb := store_byte t k v byte in
+  0 <= nb < 256 /\
+  raw_new t (Z.shiftr nb k) = v /\
+  nb = byte - ((byte / 2 ^ k) mod 2 ^ bits t) * 2 ^ k + v * 2 ^ k /\
+  (forall pos', 0 <= pos' < ppb t -> pos' <> pos ->
+     raw_new t (Z.shiftr nb (bit_index t alt pos')) = raw_new t (Z.shiftr byte (bit_index t alt pos'))) /\
+  (forall q, 0 <= q < 8 -> ~ (k <= q < k + bits t) -> Z.testbit nb q = Z.testbit byte q).
+Proof.
+  intros St Hp Hb Hv k nb.
+  destruct (byte_facts t alt pos byte v St Hp Hb Hv) as [_ S].
+  unfold byte_check in S. fold k in S. fold nb in S.
+  apply andb_true_iff in S; destruct S as [S S5].
+  apply andb_true_iff in S; destruct S as [S S4].
+  apply andb_true_iff in S; destruct S as [S S3].
+  apply andb_true_iff in S; destruct S as [S S2].
+  apply andb_true_iff in S; destruct S as [S0 S1].
+  rewrite forallb_forall in S4, S5.
+  split; [lia|]. split; [lia|]. split; [lia|]. split.
+  - intros pos' Hp' N. specialize (S4 pos' (proj2 (In_range _ _ _) Hp')).
+    apply orb_true_iff in S4. destruct S4 as [S4|S4]; lia.
+  - intros q Hq N. specialize (S5 q (proj2 (In_range _ _ _) Hq)).
+    apply orb_true_iff in S5. destruct S5 as [S5|S5]; [lia|]. apply Bool.eqb_prop in S5. exact S5.
+Qed.
+
+(* ---- sub-byte pixels in a buffer -------------------------------------------------------------------- *)
+Definition byte_at (buf : list Z) (k : Z) : Z := nth (Z.to_nat k) buf 0.
+
+Lemma bit_position_eq t alt i :
+  sub_byte t -> bit_position t alt i = (i / ppb t, bit_index t alt (i mod ppb t)).
+Proof.
+  intros St. destruct (ppb_bits t St) as [P _].
+  unfold bit_index, bit_position. cbn [snd]. fold (ppb t). rewrite Z.mod_mod by lia. reflexivity.
+Qed.
+
+Lemma sub_total t len i : sub_byte t -> 0 <= i -> 0 <= len ->
+  (i < pixels_total t len <-> i / ppb t < len) /\ 0 <= i mod ppb t < ppb t /\ 0 <= i / ppb t.
+Proof.
+  intros St Hi Hl. unfold pixels_total, ppb.
+  destruct St as [->|[->| ->]]; cbn; lia.
+Qed.
+
+Lemma buf_len_nonneg buf : 0 <= buf_len buf.
+Proof. unfold buf_len. lia. Qed.
+
+Lemma byte_at_ok buf k : bytes_ok buf -> 0 <= byte_at buf k < 256.
+Proof. intros. apply bytes_ok_nth. auto. Qed.
+
+Lemma load_sub_in t alt buf i :
+  sub_byte t -> 0 <= i < pixels_total t (buf_len buf) ->
+  load t alt buf i = Some (raw_new t (Z.shiftr (byte_at buf (i / ppb t)) (bit_index t alt (i mod ppb t)))).
+Proof.
+  intros St Hi.
+  destruct (sub_total t (buf_len buf) i St (proj1 Hi) (buf_len_nonneg buf)) as (T & M & D).
+  assert (E : load t alt buf i = load_bits t alt buf i) by (destruct St as [->|[->| ->]]; reflexivity).
+  rewrite E. unfold load_bits. rewrite bit_position_eq by auto.
+  rewrite get_lt by lia. reflexivity.
+Qed.
+
+Lemma load_sub_oob t alt buf i :
+  sub_byte t -> 0 <= i -> pixels_total t (buf_len buf) <= i -> load t alt buf i = None.
+Proof.
+  intros St Hi Ho.
+  destruct (sub_total t (buf_len buf) i St Hi (buf_len_nonneg buf)) as (T & M & D).
+  assert (E : load t alt buf i = load_bits t alt buf i) by (destruct St as [->|[->| ->]]; reflexivity).
+  rewrite E. unfold load_bits. rewrite bit_position_eq by auto.
+  replace (get buf (i / ppb t)) with (@None Z); [reflexivity|].
+  symmetry. apply get_None_iff; lia.
+Qed.
+
+Lemma store_sub_in t alt v buf i :
+  sub_byte t -> 0 <= i < pixels_total t (buf_len buf) ->
+  store t alt v buf i =
+  (upd buf (Z.to_nat (i / ppb t))
+       (store_byte t (bit_index t alt (i mod ppb t)) v (byte_at buf (i / ppb t))), true).
+Proof.
+  intros St Hi.
+  destruct (sub_total t (buf_len buf) i St (proj1 Hi) (buf_len_nonneg buf)) as (T & M & D).
+  assert (E : store t alt v buf i = store_bits t alt v buf i) by (destruct St as [->|[->| ->]]; reflexivity).
+  rewrite E. unfold store_bits. rewrite bit_position_eq by auto.
+  rewrite get_lt by lia. reflexivity.
+Qed.
+
+Lemma store_sub_oob t alt v buf i :
+  sub_byte t -> 0 <= i -> pixels_total t (buf_len buf) <= i -> store t alt v buf i = (buf, false).
+Proof.
+  intros St Hi Ho.
+  destruct (sub_total t (buf_len buf) i St Hi (buf_len_nonneg buf)) as (T & M & D).
+  assert (E : store t alt v buf i = store_bits t alt v buf i) by (destruct St as [->|[->| ->]]; reflexivity).
+  rewrite E. unfold store_bits. rewrite bit_position_eq by auto.
+  replace (get buf (i / ppb t)) with (@None Z); [reflexivity|].
+  symmetry. apply get_None_iff; lia.
+Qed.
+
+(* ---- byte_at on updated buffers ---------------------------------------------------------------------- *)
+Lemma nth_via_error {A} (l : list A) n d : nth n l d = match nth_error l n with Some x => x | None => d end.
+Proof. revert n; induction l; intros [|n]; cbn [nth nth_error]; auto. Qed.
+
+Lemma byte_at_upd_eq buf k x : 0 <= k < buf_len buf -> byte_at (upd buf (Z.to_nat k) x) k = x.
+Proof.
+  intros H. unfold byte_at. rewrite nth_via_error, nth_error_upd_eq; auto. unfold buf_len in H. lia.
+Qed.
+
+Lemma byte_at_upd_neq buf k j x : 0 <= k -> 0 <= j -> k <> j -> byte_at (upd buf (Z.to_nat k) x) j = byte_at buf j.
+Proof.
+  intros Hk Hj N. unfold byte_at. rewrite !nth_via_error, nth_error_upd_neq; auto. lia.
+Qed.
+
+Lemma byte_at_oob buf k : buf_len buf <= k -> byte_at buf k = 0.
+Proof. intros H. unfold byte_at. apply nth_overflow. unfold buf_len in H. lia. Qed.
+
+(* ---- sub-byte: round trip, frame ----------------------------------------------------------------------- *)
+Lemma sub_load_store t alt v buf i :
+  sub_byte t -> bytes_ok buf -> raw_ok t v -> 0 <= i < pixels_total t (buf_len buf) ->
+  exists buf', store t alt v buf i = (buf', true) /\ load t alt buf' i = Some v /\
+               buf_len buf' = buf_len buf /\ bytes_ok buf'.
+Proof.
+  intros St Hb Hv Hi.
+  destruct (sub_total t (buf_len buf) i St (proj1 Hi) (buf_len_nonneg buf)) as (T & M & D).
+  rewrite store_sub_in by auto. eexists; split; [reflexivity|].
+  pose proof (sb_store t alt (i mod ppb t) (byte_at buf (i / ppb t)) v St M (byte_at_ok _ _ Hb) Hv) as S.
+  cbv zeta in S. destruct S as (S0 & S1 & _).
+  split; [|split].
+  - rewrite load_sub_in by (auto; rewrite buf_len_upd; auto).
+    rewrite byte_at_upd_eq by lia. rewrite S1. reflexivity.
+  - apply buf_len_upd.
+  - apply bytes_ok_upd; auto.
+Qed.
+
+Lemma sub_store_frame t alt v buf i j :
+  sub_byte t -> bytes_ok buf -> raw_ok t v -> 0 <= i < pixels_total t (buf_len buf) -> 0 <= j -> j <> i ->
+  load t alt (fst (store t alt v buf i)) j = load t alt buf j.
+Proof.
+  intros St Hb Hv Hi Hj N.
+  destruct (sub_total t (buf_len buf) i St (proj1 Hi) (buf_len_nonneg buf)) as (T & M & D).
+  destruct (sub_total t (buf_len buf) j St Hj (buf_len_nonneg buf)) as (T' & M' & D').
+  rewrite store_sub_in by auto. cbn [fst].
+  destruct (Z_lt_ge_dec j (pixels_total t (buf_len buf))) as [L|L].
+  - rewrite !load_sub_in by (auto; rewrite ?buf_len_upd; auto).
+    destruct (Z.eq_dec (j / ppb t) (i / ppb t)) as [E|E].
+    + rewrite E. rewrite byte_at_upd_eq by lia.
+      pose proof (sb_store t alt (i mod ppb t) (byte_at buf (i / ppb t)) v St M (byte_at_ok _ _ Hb) Hv) as S.
+      cbv zeta in S. destruct S as (_ & _ & _ & S3 & _).
+      rewrite S3; auto. intros E2. apply N.
+      rewrite (Z.div_mod j (ppb t)), (Z.div_mod i (ppb t)) by lia. congruence.
+    + rewrite byte_at_upd_neq by lia. reflexivity.
+  - rewrite !load_sub_oob; auto; rewrite ?buf_len_upd; lia.
+Qed.
+
+(* ---- 8 bits per pixel ------------------------------------------------------------------------------------- *)
+Lemma raw_new_byte b : 0 <= b < 256 -> raw_new U8 b = b.
+Proof. intros. apply raw_new_id. unfold raw_ok. cbn. lia. Qed.
+
+Lemma u8_total len : pixels_total U8 len = len.
+Proof. unfold pixels_total. cbn. lia. Qed.
+
+Lemma load_u8_in alt buf i : 0 <= i < buf_len buf -> load U8 alt buf i = Some (raw_new U8 (byte_at buf i)).
+Proof. intros H. cbn [load]. unfold load_u8. rewrite get_lt by auto. reflexivity. Qed.
+
+Lemma load_u8_oob alt buf i : 0 <= i -> buf_len buf <= i -> load U8 alt buf i = None.
+Proof.
+  intros H H'. cbn [load]. unfold load_u8. replace (get buf i) with (@None Z); auto.
+  symmetry; apply get_None_iff; auto.
+Qed.
+
+Lemma store_u8_in alt v buf i : 0 <= i < buf_len buf -> store U8 alt v buf i = (upd buf (Z.to_nat i) v, true).
+Proof. intros H. cbn [store]. unfold store_u8. rewrite get_lt by auto. reflexivity. Qed.
+
+Lemma store_u8_oob alt v buf i : 0 <= i -> buf_len buf <= i -> store U8 alt v buf i = (buf, false).
+Proof.
+  intros H H'. cbn [store]. unfold store_u8. replace (get buf i) with (@None Z); auto.
+  symmetry; apply get_None_iff; auto.
+Qed.
+
+Lemma u8_load_store alt v buf i :
+  bytes_ok buf -> raw_ok U8 v -> 0 <= i < pixels_total U8 (buf_len buf) ->
+  exists buf', store U8 alt v buf i = (buf', true) /\ load U8 alt buf' i = Some v /\
+               buf_len buf' = buf_len buf /\ bytes_ok buf'.
+Proof.
+  intros Hb Hv Hi. rewrite u8_total in Hi. rewrite store_u8_in by auto.
+  eexists; split; [reflexivity|]. split; [|split].
+  - rewrite load_u8_in by (rewrite buf_len_upd; auto). rewrite byte_at_upd_eq by auto.
+    rewrite raw_new_id; auto.
+  - apply buf_len_upd.
+  - apply bytes_ok_upd; auto.
+Qed.
+
+Lemma u8_store_frame alt v buf i j :
+  0 <= i < pixels_total U8 (buf_len buf) -> 0 <= j -> j <> i ->
+  load U8 alt (fst (store U8 alt v buf i)) j = load U8 alt buf j.
+Proof.
+  intros Hi Hj N. rewrite u8_total in Hi. rewrite store_u8_in by auto. cbn [fst].
+  destruct (Z_lt_ge_dec j (buf_len buf)).
+  - rewrite !load_u8_in by (rewrite ?buf_len_upd; lia). rewrite byte_at_upd_neq by lia. reflexivity.
+  - rewrite !load_u8_oob; rewrite ?buf_len_upd; auto; lia.
+Qed.
